@@ -10,6 +10,8 @@ prints one line per property and removes the worktree again.
 Exit code 0 if every listed check reported a VIOLATION (mutant killed by all), 1 otherwise.
 """
 import json, os, subprocess, sys, tempfile, shutil, time
+HERE = os.path.dirname(os.path.dirname(os.path.abspath(__file__)))
+MT = "/tmp/verif-mut-target" if HERE == "/verif" else "/tmp/verif-mut-target-dev"
 
 def sh(cmd, **kw):
     return subprocess.run(cmd, shell=True, stdout=subprocess.PIPE, stderr=subprocess.STDOUT, text=True, **kw)
@@ -32,7 +34,7 @@ def main():
         r = sh(f"git -C {wt} apply --whitespace=nowarn {patch}")
         if r.returncode != 0:
             print("patch does not apply:", r.stdout); sys.exit(2)
-        env = dict(os.environ, CARGO_NET_OFFLINE="true", CARGO_TARGET_DIR="/tmp/verif-mut-target/repo")
+        env = dict(os.environ, CARGO_NET_OFFLINE="true", CARGO_TARGET_DIR=MT + "/repo")
         if "--baseline" in flags:
             t0 = time.time()
             r = sh(f"cd {wt} && cargo test --workspace --no-fail-fast --offline 2>&1 | grep -E '^test result|FAILED|^error' ", env=env)
@@ -41,10 +43,10 @@ def main():
             if not ok:
                 print(r.stdout)
             results["baseline_pass"] = ok
-        env2 = dict(os.environ, VERIF_REPO=wt, VERIF_TARGET="/tmp/verif-mut-target/harness")
+        env2 = dict(os.environ, VERIF_REPO=wt, VERIF_TARGET=MT + "/harness")
         for p in props:
             t0 = time.time()
-            r = sh(f"cd /verif && ./check {p} {tier}", env=env2)
+            r = sh(f"cd {HERE} && ./check {p} {tier}", env=env2)
             viol = [l for l in r.stdout.splitlines() if l.startswith("VIOLATION")]
             sigs = [l.strip() for l in r.stdout.splitlines() if "signature:" in l]
             verdict = {0: "SILENT", 1: "KILLED", 2: "INCONCLUSIVE"}.get(r.returncode, f"rc={r.returncode}")
@@ -56,8 +58,11 @@ def main():
         if "--keep" not in flags:
             sh(f"git -C /repo worktree remove --force {wt}")
             shutil.rmtree(wt, ignore_errors=True)
+    # every scratch worktree path leaves its own incremental state and rlibs behind: drop the stale ones
+    sh(f"cd {MT}/harness/verif 2>/dev/null && find incremental -maxdepth 1 -mindepth 1 -mmin +45 -exec rm -rf {{}} + ; "
+       "find deps \\( -name '*pmtiles2*' -o -name '*vcheck*' \\) -mmin +45 -delete")
     # evidence / replays written by these runs belong to the mutant, not to /repo: restore the committed ones
-    sh("cd /verif && git checkout -- evidence 2>/dev/null; rm -rf /verif/replays/*/found")
+    sh(f"cd {HERE} && git checkout -- evidence 2>/dev/null; rm -rf {HERE}/replays/*/found")
     print("RESULT " + json.dumps(results))
     sys.exit(0 if all(v.get("verdict") == "KILLED" for k, v in results.items() if k != "baseline_pass") else 1)
 
